@@ -34,7 +34,7 @@ class JsonDeserializer {
 
     err = parseVariant(variant, filter, nestingLimit);
 
-    if (!err && latch_.last() != 0 && variant.isFloat()) {
+    if (!err && variant.isFloat() && !isSpaceOrEnd(latch_.last())) {
       // We don't detect trailing characters earlier, so we need to check now
       return DeserializationError::InvalidInput;
     }
@@ -590,6 +590,10 @@ class JsonDeserializer {
   static inline bool canBeInNonQuotedString(char c) {
     return isBetween(c, '0', '9') || isBetween(c, '_', 'z') ||
            isBetween(c, 'A', 'Z');
+  }
+
+  static inline bool isSpaceOrEnd(int c) {
+    return c == 0 || c == ' ' || c == '\t' || c == '\r' || c == '\n';
   }
 
   static inline bool isQuote(char c) {
